@@ -119,7 +119,7 @@ EXTRA = {
     "C15": "Every subset of absent variables is additionally listed without occurring (built as e + g*0 through the deep form); one variable occurring up to 300 times.",
     "C17": "The catalogue contains the floats MAX+1, MAX+1.5, MIN-1 (must be errors under to_int) and MIN-0.5 (must be MIN) for every width.",
     "C18": "Two routes: parse_val(text).partial(k) and DeepEx::parse(text).partial(k); half of the conditions without parentheses around their operands.",
-    "C19": "Special values of `^` follow the IEEE 754 / C99 table of pow (signed zeros, infinities, infinite exponents, exact sign of zero).",
+    "C19": "Special values of `^` follow the IEEE 754 / C99 table of pow (signed zeros, infinities, infinite exponents, exact sign of zero). Composite expressions over the real table (+ - * / min max and signs; infix with and without parentheses, call form, nested) are evaluated as flat and deep expressions over f64 and f32 at dyadic points and compared with the exact rational value of the reference meaning (Judge_FloatExpr).",
     "C20": "Two operator tables of the same size over the same data type in one process (alternating and forced first-use order), shared expressions of 70 and 135 operands evaluated in opposite orders, a shared deep expression with 60 nesting levels evaluated 400 times per thread behind a barrier.",
     "C01": "Model conformance is also step level: the compile decisions and eval_binary steps FlatImpl predicts are compared with the hook events of the real run (MODEL-DRIFT, never a violation).",
 }
